@@ -47,16 +47,16 @@ CHECKS = {
         category='model_checking',
         text='(a) one transition of the real restart state machine (determine_restart, prepare_next_block, step-size spreading) from an arbitrary symbolic state, SMT validity per path + coverage; '
              '(b) bounded exploration of the real controller over all restart-request histories (symbolic request at every (step, attempt)); (c) real step-size formula, limiters and '
-             'Adaptivity on symbolic reals (power encoded algebraically). Bounds: NP<=3(4), max_restarts<=2(3), <=5(6) steps, order<=5.',
-        note='Trusted: z3; injected restart requests stand for the error estimators; beta<1 for the strict-decrease clause. Outside: estimators, AdaptivityCollocation, avoid_restarts, StepSizeRounding, MPI.',
+             'Adaptivity / AdaptivityRK / AdaptivityResidual / the adaptivity classes for converged collocation problems on symbolic reals (power encoded algebraically). Bounds: NP<=3(4), max_restarts<=2(3), <=5(6) steps, order<=5.',
+        note='Trusted: z3; injected restart requests stand for the error estimators; beta<1 for the strict-decrease clause. Outside: estimators, avoid_restarts, StepSizeRounding, interpolation between restarts, MPI.',
         design='4/C09', technique='symbolic execution of real convergence controllers + SMT (LIA/NRA) validity; symbolic path exploration of restart histories',
     ),
     'C14': dict(
         category='other',
         text='(a) real filter_stats/get_list_of_types on dictionaries with symbolic integer key fields: every path proved equal to the specification, coverage certified; sort_stats by CrossHair contracts; '
              '(b) every explored convergence pattern / restart history of the real controller with all logging hooks: one correctly keyed record per accepted step and type, niter = iteration callbacks, '
-             'work_rhs = evaluations made, no silent key collisions.',
-        note='Trusted: z3, CrossHair (only "Confirmed over all paths" counts). Restart generation and entry type are enumerated. Outside: error/timing hooks, MPI gathering, > 4 entries.',
+             'work_rhs = evaluations made, no silent key collisions; (c) every ordered pair of shipped hook classes is registered exactly once through both routes (hook_class list, add_hook) (enumerated, concrete).',
+        note='Trusted: z3, CrossHair (only "Confirmed over all paths" counts). Restart generation and entry type are enumerated. Outside: per-iteration error hooks, values of timing hooks, file-writing hooks, MPI gathering, > 4 entries.',
         design='4/C14', technique='symbolic execution of real helpers (z3) + CrossHair contracts; path exploration of the real controller with recording hooks',
     ),
     'C16': dict(
@@ -64,7 +64,7 @@ CHECKS = {
         text='The real FieldsIO methods run against a symbolic file (byte length, offsets, number of variables, completed records k, crash offset c, read index are z3 integers; '
              'writes/reads are extents with provenance): SMT (QF_NIA) validity per path of nFields = k after any crash, reads of idx in [-k,k) touch exactly record idx, others rejected, '
              'append after a crash is aligned/read back/does not disturb old records, header round trip; coverage certificates. Block decomposition: CrossHair contracts (contiguity, '
-             'exact cover, factorisation) over symbolic sizes. Bit-exact numpy round trips and the crash scenario at every byte offset are replayed on real files.',
+             'exact cover, factorisation) over symbolic sizes. Bit-exact numpy round trips (all dtypes, C / Fortran / transposed / strided memory layouts) and the crash scenario at every byte offset are replayed on real files.',
         note='Trusted: z3, CrossHair; numpy tofile/fromfile transfer exactly nbytes (stub contract); a crash leaves a prefix of the interrupted write. Outside: MPI-IO, toVTR, symbolic Rectilinear grids.',
         design='4/C16', technique='symbolic execution of real I/O code on a symbolic file + SMT (QF_NIA); CrossHair contracts for the block decomposition',
     ),
@@ -89,7 +89,7 @@ CHECKS = {
         category='other',
         text='(a) CrossHair contracts over the real Step.__dict_to_list (symbolic scalar-or-list values, lists up to 4/6); (c) the real controller constructor executed with symbolic integer control orders of 2..4 '
              'convergence controllers: every ordering path proved ascending (SMT), instantiated once, user parameters override defaults, coverage certified; (b,d) rejection / frozen-attribute clauses are a finite table of '
-             'single-fault perturbations executed concretely as side conditions (no solver).',
+             'single-fault perturbations, each per-level fault placed on every non-empty subset of 2 and 3 levels through list-valued entries, executed concretely as side conditions (no solver).',
         note='Trusted: CrossHair, z3. Description keys and attribute names are fixed lists. Outside: the full grammar of valid descriptions.',
         design='4/C20', technique='CrossHair contracts + symbolic execution of the controller constructor (z3); concrete side conditions for the finite rejection table',
     ),
@@ -98,7 +98,7 @@ CHECKS = {
         text='(a) for an UNINTERPRETED right-hand side f (so linear and nonlinear problems alike): the real restrict, coarse update_nodes (implicit/explicit, 2 and 3 levels, inherited tau, middle-level sweeps) and '
              'prolong/prolong_f run on z3 terms; assuming the fine level holds its collocation solution, SMT (QF_UFLRA) shows every coarse sweep leaves the restricted solution and every fine value / rhs is unchanged; '
              '(b) coarse defect after restrict == R * fine defect for arbitrary fine values and tau; (c) one real down-coarse-up-fine cycle of controller_nonMPI on arbitrary fine values equals the multigrid-in-time iteration '
-             'written with explicit matrices and solved inside the query (QF_LRA, 1e-9).',
+             'written with explicit matrices and solved inside the query (QF_LRA, 1e-9), on two levels and on three levels with per-level sweep counts (1e-11).',
         note='Trusted: z3; implicit-solve stub contract (returns a root; returns the guess if it is a root); real node tables with restriction rows made exactly stochastic (~1e-16 change); injection in space. Outside: real mesh transfer classes (C11), mass matrices, >3 levels.',
         design='4/C10', technique='symbolic execution of real transfer/sweep code with an uninterpreted right-hand side + SMT (QF_UFLRA / QF_LRA)',
     ),
@@ -112,7 +112,7 @@ CHECKS = {
     ),
     'C05': dict(
         category='other',
-        text='Weak fit (stated as such): the node/weight computation is qmat + LAPACK and cannot be symbolic. Per enumerated configuration (6 node families x 4 types x M<=5(8) x 5(7) intervals) the real CollBase tables are converted to '
+        text='Weak fit (stated as such): the node/weight computation is qmat + LAPACK and cannot be symbolic. Per enumerated configuration (6 node families x 4 types x M<=5(8) x 8(10) intervals, end points exactly zero included) the real CollBase tables are converted to '
              'exact rationals and the solver decides (QF_LRA) for every polynomial with coefficients in [-1,1] that weights / Q integrate exactly (degree < order / < M); structural clauses (ordering, end points, padding, S=diff Q, affine covariance) are evaluated concretely.',
         note='Trusted: z3; tolerance 1e-11*length (1e-9 ill-conditioned families). The solver closes the data quantifier only; configurations are enumerated. Known finding: node snapping on large-offset intervals (qmat).',
         design='4/C05', technique='tables from the real code as exact rationals + SMT (QF_LRA) over all polynomial data',
@@ -141,7 +141,7 @@ CHECKS = {
     ),
     'C18': dict(
         category='other',
-        text='Stencils: weights from the real get_finite_difference_stencil for all standard layouts (derivative 1-4, order<=6(8)) and sampled integer offset sets: exact on every polynomial of degree < n (solver over the unit box, backward-error scaled tolerance). '
+        text='Stencils: weights from the real get_finite_difference_stencil for all standard layouts (derivative 1-4, order<=6(8)) and sampled integer offset sets (handed over sorted, rotated and in random order): exact on every polynomial of degree < n (solver over the unit box, backward-error scaled tolerance). '
              'Matrices: the real get_finite_difference_matrix applied to arbitrary symbolic grid functions / polynomial data: periodic rows apply exactly the stencil with wrap-around (including custom offsets), Dirichlet/Neumann/mixed closures with symbolic boundary data '
              'reproduce the derivative within the closure exactness degree, n-D = Kronecker sum; get_1d_grid spacing.',
         note='Trusted: z3; weights come from numpy.linalg.solve (enumerated configurations). Known finding: reduce=True closure for derivative >= 3.',
